@@ -574,17 +574,18 @@ impl World for C12World {
         // temporaries (so that the second one tends to be allocated where the first one was)
         if r.chance(1, 10) {
             let mut big: Operand = Vec::new();
-            for k in 0..(14 + r.below(8)) {
+            for k in 0..(27 + r.below(14)) {
                 let (x, y) = (3.0 * (k % 6) as f64, 3.0 * (k / 6) as f64);
                 big.push(vec![vec![[x, y], [x + 2.0, y], [x + 2.0, y + 2.0], [x, y + 2.0], [x, y]]]);
             }
             let mut twin = geom::translate(&big, 500.0, 0.0);
             twin[0] = big[0].clone(); // same first vertex (and first part), everything else far away
-            let small: Operand = vec![vec![vec![[4.0, 4.0], [9.0, 4.0], [9.0, 9.0], [4.0, 9.0], [4.0, 4.0]]]];
+            // the other operand sits where only the twin's far parts are
+            let small: Operand = vec![vec![vec![[504.0, 4.0], [509.0, 4.0], [509.0, 9.0], [504.0, 9.0], [504.0, 4.0]]]];
             let base = operands.len() as u32;
             operands.extend([big, twin, small]);
             let op = r.below(4) as u8;
-            let heap = Policy { place: heap::Place::AscLifo, fill: *fr.pick(&FILLS) }.code();
+            let heap = Policy { place: *fr.pick(&[heap::Place::AscFifo, heap::Place::AscFifo, heap::Place::AscLifo]), fill: *fr.pick(&FILLS) }.code();
             let mk = |l: u32, rr: u32| Step { retire: false, op, lhs: Src::Pool(base + l), rhs: Src::Pool(base + rr), pairing: 0, f32_: false, heap, clone_ops: true, cancel: 0, save: false, repeat: 1 };
             let c = r.below(clients.len() as u64) as usize;
             let at = r.below(clients[c].len() as u64 + 1) as usize;
